@@ -69,7 +69,9 @@ impl VMThread {
     pub fn fork(&self, target: u32) -> Self {
         let instruction_pointer = self.thread.instruction_pointer();
         let state = self.state.fork(instruction_pointer);
-        let gas_usage = self.gas_usage;
+        // The forking instruction is part of the new thread's history as well, but its
+        // cost is only charged to the current thread once it has finished executing
+        let gas_usage = self.gas_usage + self.thread.current().min_gas_cost();
         let mut thread = self.thread.clone();
         thread.at(target);
 
